@@ -398,6 +398,12 @@ class MHLHistory:
                     original_hash_entry = self.find_original_hash_entry_for_path(media_hash.path)
                     required_hash_entry = media_hash.find_hash_entry_for_format(original_hash_entry.hash_format)
                     if required_hash_entry is None:
+                        # the original format was not computed in this run: any other already recorded
+                        # format of the same file that was verified in this run vouches for the new hash
+                        required_hash_entry = next(
+                            (entry for entry in media_hash.hash_entries if entry.action == "verified"), None
+                        )
+                    if required_hash_entry is None:
                         raise AssertionError("no hash entry found for new hash", hash_entry)
                     if required_hash_entry.action != "verified":
                         raise AssertionError("hash entry for new hash not verified", hash_entry, required_hash_entry)
